@@ -163,7 +163,14 @@ def build_objects(case):
             pos = ["" if v is None else str(v) for v in (r[ST], r[EN])]     # None: an empty position cell
             line = "\t".join([r[TUM], r[NOR], r[CHR], pos[0], pos[1], r[REF], alt, str(r[ID])])
             return MafRecord.from_line(line, column_names=COLS)
-        o = LocatableByAllele(r[CHR], r[ST], r[EN], r[REF], list(r[ALTS]))
+        if case.get("setters"):
+            # the same locatable, filled in through the public property setters
+            o = LocatableByAllele(None, None, None, r[REF], list(r[ALTS]))
+            o.chromosome = r[CHR]
+            o.start = r[ST]
+            o.end = r[EN]
+        else:
+            o = LocatableByAllele(r[CHR], r[ST], r[EN], r[REF], list(r[ALTS]))
         o.rid = r[ID]
         vals = {"Tumor_Sample_Barcode": r[TUM], "Matched_Norm_Sample_Barcode": r[NOR]}
         o.value = vals.get
@@ -205,8 +212,30 @@ def run_overlap(case):
     if case.get("peek_sub") and case["kind"] == 0:
         from maflib.util import PeekableIterator
 
+        style = int(case["peek_sub"])
+
+        class ViaNext:
+            """adapter a caller's filter may put around the iterator it is handed: python-2 style .next()"""
+
+            def __init__(self, inner):
+                self.inner = inner
+
+            def __iter__(self):
+                return self
+
+            def __next__(self):
+                return self.inner.next()
+
         class FilteringPeekable(PeekableIterator):
-            """the documented extension point: a caller's own PeekableIterator subclass"""
+            """the documented extension point: a caller's own PeekableIterator subclass; style 2 takes
+            iter() of the iterator it is handed, style 3 reads it through its .next() method"""
+
+            def __init__(self, _iter):
+                if style == 2:
+                    _iter = iter(_iter)
+                elif style == 3:
+                    _iter = ViaNext(_iter)
+                super().__init__(_iter)
 
         kw["peekable_iterator_class"] = FilteringPeekable
     if case.get("warmup"):
@@ -508,6 +537,9 @@ def vary_call(rng, case):
     documented default value passed or left out; another iterator with another contig order used before"""
     case["via"] = rng.choice([0, 0, 0, 1, 1, 2])
     case["defaults"] = rng.random() < 0.35
+    case["setters"] = rng.random() < 0.3
+    if case["kind"] == 0 and rng.random() < 0.15:
+        case["peek_sub"] = rng.choice([1, 2, 3])
     ctg = case.get("contigs")
     if ctg and rng.random() < 0.25:
         w = list(dict.fromkeys(ctg))
